@@ -21,6 +21,7 @@ import (
 	"context"
 	"encoding/json"
 	"math/big"
+	"strings"
 
 	"github.com/hyperledger/firefly-common/pkg/i18n"
 	"github.com/hyperledger/firefly-common/pkg/log"
@@ -32,18 +33,22 @@ func BigIntegerFromString(ctx context.Context, s string) (*big.Int, error) {
 	// no prefix means decimal etc.
 	i, ok := new(big.Int).SetString(s, 0)
 	if !ok {
-		f, _, err := big.ParseFloat(s, 10, 256, big.ToNearestEven)
-		if err != nil {
-			log.L(ctx).Errorf("Error parsing numeric string '%s': %s", s, err)
+		// Not an integer literal, so it might be a decimal with a fraction and/or exponent (such as 1.5e3).
+		// We parse these as an exact rational number, because any fixed precision floating point type
+		// silently rounds a long enough input to a nearby integer during parsing.
+		var r *big.Rat
+		if !strings.ContainsRune(s, '/') { // the "a/b" syntax of big.Rat is not a number format we support
+			r, _ = new(big.Rat).SetString(s)
+		}
+		if r == nil {
+			log.L(ctx).Errorf("Error parsing numeric string '%s'", s)
 			return nil, i18n.NewError(ctx, signermsgs.MsgInvalidNumberString, s)
 		}
-		i, accuracy := f.Int(i)
-		if accuracy != big.Exact {
+		if !r.IsInt() {
 			// If we weren't able to decode without losing precision, return an error
 			return nil, i18n.NewError(ctx, signermsgs.MsgInvalidIntPrecisionLoss, s)
 		}
-
-		return i, nil
+		return r.Num(), nil
 	}
 	return i, nil
 }
